@@ -226,6 +226,24 @@ K2 = jnp.asarray(np.diff(np.eye(4), 2, axis=0).T @ np.diff(np.eye(4), 2, axis=0)
 def model_family(name, per_obs=True, flags="exclusive"):
     """Returns (model, recipe) where recipe: values -> list of leaves
     [{'name', 'v', 'has_var', 'observed', 'parameter'}], and the names of settable params."""
+    if name == "uniform_default":
+        # default event-space bijector that depends on another parameter: u ~ Uniform(0, hi), u.transform()
+        hi = lsl.param(jnp.float32(2.0), lsl.Dist(tfd.Gamma, concentration=4.0, rate=2.0), name="hi")
+        u = lsl.param(jnp.float32(0.8), lsl.Dist(tfd.Uniform, low=0.0, high=hi), name="u")
+        y = lsl.obs(jnp.asarray([0.4, 1.1, 0.8], jnp.float32), lsl.Dist(tfd.Normal, loc=u, scale=1.0), name="y")
+        u.transform()
+        model = lsl.GraphBuilder().add(y).build_model()
+        draws = {"hi": lambda r: jnp.float32(r.uniform(1.0, 6.0)), "u_transformed": lambda r: jnp.float32(r.uniform(-2, 2))}
+        return model, None, draws, {}
+    if name == "int_init":
+        # nodes initialised with integers (a Python int and an integer array) that later receive float positions
+        shift = lsl.Var(3, name="shift")
+        rate = lsl.Var(jnp.asarray(2), name="rate")
+        mean = lsl.Var(lsl.Calc(lambda r, s: r * 10.0 + s, rate, shift), name="mean")
+        y = lsl.obs(jnp.asarray([20.0, 25.0, 31.0], jnp.float32), lsl.Dist(tfd.Normal, loc=mean, scale=2.0), name="y")
+        model = lsl.GraphBuilder(to_float32=False).add(y).build_model()
+        draws = {"rate": lambda r: jnp.float32(r.uniform(1.0, 4.0)), "shift": lambda r: jnp.float32(r.uniform(0.0, 6.0))}
+        return model, None, draws, {}
     if name == "name_collision":
         # a settable node and a (weak) variable share the name "x": a position key "x" means the node
         raw = lsl.Data(jnp.asarray([1.0, 2.0, 4.0], jnp.float32), _name="x")
